@@ -1,7 +1,7 @@
-\* C03 partition ring, thorough: all pairs of descriptors with one partition and two owners, pair laws
+\* C03 partition ring, thorough: all pairs of descriptors with one partition and one owner, pair laws
 CONSTANTS
   NP = 1
-  NO = 2
+  NO = 1
   NOwned = 2
   TsSet = {1, 2}
   PStates = {"Active"}
